@@ -3,6 +3,7 @@ package rules
 import (
 	"go/token"
 	"go/types"
+	"strings"
 
 	"golang.org/x/tools/go/ssa"
 
@@ -102,6 +103,35 @@ func runC19(c *core.Ctx) {
 			c.Violate("C19.install-once", fn, "not-yet-installed guard ≺ storage writes", c.P.Rel(fn.Pos()),
 				sprintf("no call in the method reads a storage shape it writes (%s …): nothing observes a previous installation, so a second SyncGenesisHeader overwrites the trust root", puts[0].Shape.String()))
 			continue
+		}
+		// the marker the guard reads identifies the CHAIN, not the submitted data: a key that also
+		// contains bytes of the header being installed (its hash, its height) is absent for any other
+		// genesis, so a different trust root for an initialised chain would pass
+		{
+			okMarker := false
+			var shapes []string
+			for _, chk := range checks {
+				shapes = append(shapes, chk.Shape.String())
+				perChain := true
+				nFix := 0
+				for _, a := range chk.Shape {
+					switch a.Kind {
+					case eng.AContract, eng.ALit:
+					case eng.AFix:
+						nFix++
+						// one 8-byte component: the chain id (when its source is visible it must be one)
+						if a.N != 8 || (a.Val != nil && !isChainIDValue(a.Val)) {
+							perChain = false
+						}
+					default:
+						perChain = false
+					}
+				}
+				if perChain && nFix <= 1 {
+					okMarker = true
+				}
+			}
+			c.Decide(okMarker, "C19.marker-per-chain", fn, "some installed-check reads a key made of constants and the chain id only", c.P.Rel(fn.Pos()), strings.Join(shapes, " | "))
 		}
 		ws := writeCalls(c, fn, writers)
 		eng.Dominates(c, "C19.install-once", fn, g, ir.CallSinks(ws, "storage-writing call"), "storage writes", nil)
@@ -275,4 +305,15 @@ func readsOnly(c *core.Ctx, w *ssa.Function) bool {
 		}
 	}
 	return gets > 0
+}
+
+// isChainIDValue: v is a chain-id parameter / local (named chainID, chainId …) or a field of that name.
+func isChainIDValue(v ssa.Value) bool {
+	v = ir.Strip(v)
+	if p, ok := v.(*ssa.Parameter); ok {
+		n := strings.ToLower(p.Name())
+		return n == "chainid" || n == "chain_id"
+	}
+	_, f, ok := fieldLoad(v)
+	return ok && strings.ToLower(f) == "chainid"
 }
